@@ -260,6 +260,25 @@ def check(ctx, rep):
         in_loop = len(spawns) == 1 and len(nexts) == 1 and f.in_cycle(spawns[0][0]) and \
             all(c01._moves_from(f, {'l': o.stmt['rv']['ops'][0]['l'], 'p': o.stmt['rv']['ops'][0].get('p', [])}, nexts[0][1]['d']['l'], 'Some')
                 for o in origins(f, spawns[0][1]['args'][1]) if o.kind == 'agg' and o.stmt['rv'].get('ak') == 'closure') if spawns else False
+        if not (direct and in_loop):
+            # the same thing written with for_each: commands.into_iter().for_each(|c| command.spawn(..c..))
+            fes = [(bb, t) for bb, t in f.calls('core::iter::traits::iterator::Iterator::for_each')]
+            if len(fes) == 1 and not nexts:
+                src = origins(f, fes[0][1]['args'][0])
+                direct = bool(src) and all(o.kind == 'arg' and o.n == 1 and not [s_ for s_ in o.steps if s_[0] == 'idcall' and s_[2] != 'into_iter'] for o in src)
+                in_loop = False
+                for o in origins(f, fes[0][1]['args'][1]):
+                    if o.kind == 'agg' and o.stmt['rv'].get('ak') == 'closure':
+                        g = core.by_exact(o.stmt['rv']['def'])
+                        if g is None:
+                            continue
+                        sp = [(bb, t) for bb, t in g.calls('crux_core::command::Command::spawn')]
+                        if len(sp) == 1 and not g.in_cycle(sp[0][0]):
+                            # the spawned closure captures the item (parameter 2 of the for_each closure)
+                            for x in origins(g, sp[0][1]['args'][1]):
+                                if x.kind == 'agg' and x.stmt['rv'].get('ak') == 'closure' and x.stmt['rv']['ops']:
+                                    item = origins(g, x.stmt['rv']['ops'][0])
+                                    in_loop = bool(item) and all(y.kind == 'arg' and y.n == 2 and not y.suffix for y in item)
         rep.expect('R04.c', direct and in_loop, 'all|every-item', 'every item of the argument iterator is spawned (no adaptor, spawn inside the loop)',
                    'Command::all does not spawn every item of its argument (iterator adapted or spawn outside the loop)')
     counts = c01.check_linear(rep, core, 'default', rid='R04.c', only=lambda f, ty: 'crux_core::command::Command<' in ty)
